@@ -248,6 +248,33 @@ func (c *FnCtx) callFunc(st *State, fn *types.Func, sig *types.Signature, recv *
 	if fs, ok := c.eng.contracts.Funcs[key]; ok && !(c.inlineDepth == 0 && false) {
 		return c.callByContract(st, fs, sig, recv, args, call.Pos(), key)
 	}
+	// call-site obligations attached by the contract of the function being verified
+	if c.spec != nil && c.inlineDepth == 0 {
+		for _, cp := range c.spec.CallPre {
+			if cp.Label != fn.Name() {
+				continue
+			}
+			sc := c.specScopeAt(st)
+			for i, an := range cp.Props {
+				if an != "" && i < len(args) {
+					sc.vars[an] = args[i]
+				}
+			}
+			oname := ""
+			if len(call.Args) > 0 {
+				if bl, ok := call.Args[0].(*ast.BasicLit); ok {
+					// stable name: the literal argument identifies the call site
+					oname = "callpre:" + fn.Name() + "(" + bl.Value + ")"
+					for _, o := range c.obls {
+						if o.Name == c.fname+"/"+oname {
+							oname = ""
+						}
+					}
+				}
+			}
+			c.obligeNamed(st, "callpre", oname, sc.boolOf(cp.Expr), "at the call of "+fn.Name()+": "+cp.Src, call.Pos())
+		}
+	}
 	if h, ok := externs[fn.FullName()]; ok {
 		c.trusted["external contract: "+fn.FullName()] = true
 		return h(c, st, call, recv, args)
